@@ -49,7 +49,16 @@ EDITS = [
     ('C05', 'src/rpm/package.rs', [('                            if let Some(dir) = dirs.get(dir_index as usize) {\n                                acc.push(Path::new(dir).join(basename));\n                                Ok(acc)\n                            } else {', '                            if let Some(dir) = dirs.get(dir_index as usize) {\n                                let full = Path::new(dir).join(basename);\n                                acc.push(full);\n                                Ok(acc)\n                            } else {')]),
     ('C10', 'src/rpm/package.rs', [('                if new_key_ids.len() != 1 {', '                if 1 != new_key_ids.len() {')]),
     ('C18', 'src/rpm/headers/types.rs', [('permissions & PERMISSIONS_BIT_MASK', 'PERMISSIONS_BIT_MASK & permissions')]),
+    # a few lines moved into a new private helper function (R45 inlines an uncontracted helper at its call site)
+    ('C03', 'src/rpm/package.rs', [('            if md5_declared != header_and_content_digest_md5 {', '            if digests_differ(md5_declared, header_and_content_digest_md5.as_slice()) {'),
+                                   ('#[derive(Clone, Debug, PartialEq)]\npub struct PackageMetadata {', 'fn digests_differ(declared: &[u8], computed: &[u8]) -> bool {\n    declared != computed\n}\n\n#[derive(Clone, Debug, PartialEq)]\npub struct PackageMetadata {')]),
+    ('C16', 'src/rpm/headers/header.rs', [('        (8 - (self.index_header.data_section_size % 8)) % 8\n', '        pad_to_8(self.index_header.data_section_size)\n'),
+                                          ('impl fmt::Display for Header<IndexSignatureTag> {', 'fn pad_to_8(size: u32) -> u32 {\n    (8 - (size % 8)) % 8\n}\n\nimpl fmt::Display for Header<IndexSignatureTag> {')]),
+    ('C03', 'src/rpm/package.rs', [('            if sha256 != header_digest_sha256 {', '            if !same_text(sha256, &header_digest_sha256) {'),
+                                   ('#[derive(Clone, Debug, PartialEq)]\npub struct PackageMetadata {', 'fn same_text(declared: &str, computed: &str) -> bool {\n    declared.len() == computed.len() && declared.as_bytes().iter().zip(computed.as_bytes().iter()).all(|(a, b)| a == b)\n}\n\n#[derive(Clone, Debug, PartialEq)]\npub struct PackageMetadata {')]),
 ]
+if len(sys.argv) > 2 and sys.argv[1] == '--last':
+    EDITS = EDITS[-int(sys.argv[2]):]
 bad = 0
 for prop, rel, subs in EDITS:
     d = tempfile.mkdtemp(prefix='benign-', dir='/var/tmp')
